@@ -65,6 +65,28 @@ Example c10_error_class_instance :
   err_matches 1060 60 ex_opts [(asc "iss", PNone); (asc "exp", PInt 0)] (EJose MissingClaimError).
 Proof. exact ex_missing. Qed.
 
+(* precedence: when no essential claim is missing, the error is the one called for by the
+   FIRST claim, in the order of the claims set, that violates a clause (all claims
+   before it satisfy every clause) *)
+Theorem c10_error_first : forall now lw opts claims e,
+  wf_opts opts = true -> json_claims claims = true ->
+  validate now lw opts claims = Err e -> e <> EJose MissingClaimError ->
+  cl_essential opts claims = true /\
+  exists l1 k v l2, claims = l1 ++ (k, v) :: l2 /\
+    on_claims (claim_satisfied now lw opts) l1 = true /\
+    claim_err_matches now lw opts k v e.
+Proof. exact validate_first_error. Qed.
+Example c10_error_first_instance :
+  validate 1000 0 ex_opts (ex_claims (PInt 5000)) = Err (EJose InvalidTokenError) /\
+  time_gt (PFloat (FFin 2001 2%positive)) (1000 + 0) /\
+  In (asc "nbf", PFloat (FFin 2001 2%positive)) (ex_claims (PInt 5000)).
+Proof. exact ex_early. Qed.
+
+(* leeway omitted = the default of the constructor (0, from the generated table) *)
+Theorem c10_default_leeway : forall now opts claims,
+  validate_default now opts claims = validate now 0 opts claims.
+Proof. exact validate_default_eq. Qed.
+
 (* an essential claim that is absent or null: MissingClaimError, for EVERY
    request and claims set (no domain restriction; essential read by truthiness) *)
 Theorem c10_essential_missing : forall now lw opts claims k o,
@@ -143,6 +165,8 @@ Print Assumptions c10_accept_iff.
 Print Assumptions c10_boundary.
 Print Assumptions c10_strict_implies_accepted.
 Print Assumptions c10_error_class.
+Print Assumptions c10_error_first.
+Print Assumptions c10_default_leeway.
 Print Assumptions c10_essential_missing.
 Print Assumptions c10_never_expired.
 Print Assumptions c10_never_early.
